@@ -37,7 +37,7 @@ pub fn run_case(env: &Env, ctx: &mut Ctx, idx: u64) {
         o.max_depth = 3;
         let prog = gen_pp::multi_file(&mut rng, o, 3);
         let rendered = gen_pp::render(&prog, &mut rng);
-        let cfg = Cfg { include_paths: vec![dir.clone()], ..Cfg::default() };
+        let cfg = Cfg { include_paths: vec![dir.clone()], strip_comments: rng.chance(1, 4), ..Cfg::default() };
         let s = Setup { prog, rendered, dir: Some(dir.clone()), cfg, top: 0 };
         s.write_files();
         s
@@ -45,7 +45,7 @@ pub fn run_case(env: &Env, ctx: &mut Ctx, idx: u64) {
         let n = rng.range(2, 6);
         let prog = gen_pp::single_file(&mut rng, o, n);
         let rendered = gen_pp::render(&prog, &mut rng);
-        let cfg = Setup::cfg_with_predefs(&prog, Cfg::default());
+        let cfg = Setup::cfg_with_predefs(&prog, Cfg { strip_comments: rng.chance(1, 4), ..Cfg::default() });
         Setup { prog, rendered, dir: None, cfg, top: 0 }
     };
     check_program(ctx, &setup, &mut rng);
@@ -206,6 +206,39 @@ fn check_program(ctx: &mut Ctx, setup: &Setup, rng: &mut Rng) {
             }
         }
     }
+    // B'. a copied byte is the byte at its origin: every byte outside expansions and synthesised text equals the
+    // source byte that origin() names.  (With strip_comments a block comment leaves one blank, which is
+    // attributed to the comment's first byte.)
+    for p in 0..text.len() {
+        if class[p] != Class::Gap && class[p] != Class::Src {
+            continue;
+        }
+        if let Some((pb, o)) = origin(p) {
+            if let Some(fi) = paths.iter().position(|x| *x == pb) {
+                let src = setup.rendered.files[fi].1.as_bytes();
+                let out = text.as_bytes()[p];
+                let same = src.get(o) == Some(&out);
+                let stripped_block = setup.cfg.strip_comments && out == b' ' && src.get(o) == Some(&b'/') && src.get(o + 1) == Some(&b'*');
+                // white space / comments that come out of a macro expansion are attributed to the definition's body
+                // (not byte by byte); they are recognised by an origin inside a `define line
+                let from_body = !same && o <= src.len() && in_define_line(&setup.rendered.files[fi].1, o.min(src.len()));
+                ctx.count("origin_bytes_compared", 1);
+                if !same && !stripped_block && !from_body {
+                    let m = format!(
+                        "byte {} of output is {:?} but origin() names {}:{}, which holds {:?} (context {:?})",
+                        p,
+                        out as char,
+                        pb.display(),
+                        o,
+                        src.get(o).map(|c| *c as char),
+                        clip(&text[floor_cb(&text, p.saturating_sub(12))..ceil_cb(&text, (p + 12).min(text.len()))], 40)
+                    );
+                    ctx.violation("origin-byte-differs", "", &m, witness(&m));
+                    return;
+                }
+            }
+        }
+    }
     ctx.count("positions_checked", text.len() as u64);
     // C. flip experiments: interventional ground truth for "copied from"
     let nflips = if text.len() < 400 { 40 } else { 12 };
@@ -250,8 +283,9 @@ fn check_program(ctx: &mut Ctx, setup: &Setup, rng: &mut Rng) {
                 // (the definition's file, checked per token above) is what the statement asks for
                 let ok = exact
                     || ((class[p] == Class::Exp || class[p] == Class::ExpGap) && got.is_some())
-                    || ((class[p] == Class::Synth || class[p] == Class::SynthGap) && got.is_none());
-                let _ = in_define;
+                    || ((class[p] == Class::Synth || class[p] == Class::SynthGap) && got.is_none())
+                    // a comment of a macro body surfaces in the expansion without a token next to it
+                    || (in_define && class[p] == Class::Gap && matches!(&got, Some((pb, o)) if *pb == paths[fi] && in_define_line(src, (*o).min(src.len()))));
                 if !ok {
                     let m = format!(
                         "flipping byte {} of {} ({:?} -> {:?}) changes output byte {}, so that byte was copied from there, but origin({}) = {:?}",
@@ -406,4 +440,17 @@ fn get_origin_check(env: &Env, ctx: &mut Ctx, rng: &mut Rng) {
         }
     }
     ctx.nontrivial(hash_str(&src));
+}
+
+fn floor_cb(s: &str, mut i: usize) -> usize {
+    while !s.is_char_boundary(i) {
+        i -= 1;
+    }
+    i
+}
+fn ceil_cb(s: &str, mut i: usize) -> usize {
+    while !s.is_char_boundary(i) {
+        i += 1;
+    }
+    i
 }
